@@ -34,9 +34,12 @@ type scenario struct {
 	Mode   string   // plain | blind | mitm-plain | mitm-tls
 	Beh    []string // behaviour per exchange on connection 0 (for CONNECT modes Beh[0] is the CONNECT exchange)
 	Second bool     // a second connection runs one plain "pass" exchange concurrently
+	Pipe   bool     // the client writes all its requests before it reads the first response
 }
 
-func (s scenario) String() string { return fmt.Sprintf("mode=%s beh=%v second=%v", s.Mode, s.Beh, s.Second) }
+func (s scenario) String() string {
+	return fmt.Sprintf("mode=%s beh=%v second=%v pipelined=%v", s.Mode, s.Beh, s.Second, s.Pipe)
+}
 
 type call struct {
 	Kind    string // req | res
@@ -280,12 +283,24 @@ func run(sc scenario) (body func(), check func(r *vrt.Result) []finding) {
 					br = bufio.NewReader(tc)
 				}
 			}
+			pipelined := sc.Pipe && name == "0"
+			if pipelined {
+				for k := start; k < len(beh); k++ {
+					target := "http://origin.test/x"
+					if mode == "mitm-tls" || mode == "mitm-plain" {
+						target = "/x"
+					}
+					fmt.Fprintf(rw, "GET %s HTTP/1.1\r\nHost: origin.test\r\nX-Conn: %s\r\nX-Seq: %d\r\n\r\n", target, name, k)
+				}
+			}
 			for k := start; k < len(beh); k++ {
 				target := "http://origin.test/x"
 				if mode == "mitm-tls" || mode == "mitm-plain" {
 					target = "/x"
 				}
-				fmt.Fprintf(rw, "GET %s HTTP/1.1\r\nHost: origin.test\r\nX-Conn: %s\r\nX-Seq: %d\r\n\r\n", target, name, k)
+				if !pipelined {
+					fmt.Fprintf(rw, "GET %s HTTP/1.1\r\nHost: origin.test\r\nX-Conn: %s\r\nX-Seq: %d\r\n\r\n", target, name, k)
+				}
 				if isHijack(beh[k]) {
 					readMarkerOrEOF(br)
 					return
@@ -559,6 +574,13 @@ func scenarios(tier string) []scenario {
 			}
 		}
 		out = append(out, scenario{Mode: "plain", Beh: beh})
+		hj := false
+		for _, b := range beh {
+			hj = hj || isHijack(b)
+		}
+		if len(seq) >= 2 && !hj {
+			out = append(out, scenario{Mode: "plain", Beh: beh, Pipe: true})
+		}
 		if len(seq) <= 2 {
 			out = append(out, scenario{Mode: "plain", Beh: beh, Second: true})
 		}
@@ -582,6 +604,7 @@ func scenarios(tier string) []scenario {
 			}
 		}
 		out = append(out, scenario{Mode: mode, Beh: []string{"pass", "pass"}, Second: true})
+		out = append(out, scenario{Mode: mode, Beh: []string{"pass", "pass", "reserr"}, Pipe: true}, scenario{Mode: mode, Beh: []string{"pass", "skip", "rterr"}, Pipe: true})
 	}
 	return out
 }
